@@ -360,7 +360,9 @@ impl<'s> Tokenizer<'s> {
                     self.tokenize_block_or_var(BlockSentinel::LineStatement)
                 }
                 Some(LexerState::Variable) => self.tokenize_block_or_var(BlockSentinel::Variable),
-                None => panic!("empty lexer stack"),
+                // an expression has no enclosing template to return to: input
+                // behind the end of its (implied) variable block is an error
+                None => return Err(self.syntax_error("unexpected input after end of expression")),
             };
             match ok!(outcome) {
                 ControlFlow::Break(rv) => return Ok(Some(rv)),
